@@ -35,7 +35,13 @@ EXPLANATION = (
     'single table on both sides, strToCommandArg table, gcc_rsp_quote doubles backslashes, quote_func binding, POSIX '
     'quote_arg is shlex.quote. R4: meson_exe/mtest pass argv lists to Popen/create_subprocess_exec without a shell and '
     'without joining; argv order; test args stored unchanged. R5: only whitelisted rewrites in eval_custom_target_command '
-    'and escape_extra_args. R6: a newline in an argument forces the pickled wrapper, which receives the unmodified '
+    'and escape_extra_args; every in-place @TEMPLATE@ substitution runs on every path on which the element may contain that template. '
+    'R4a also: meson_exe.run passes on the argv argparse left over, minus at most one leading `--`. R5c: in generate_genlist_for_target no string '
+    'rewrite runs on the result of the @EXTRA_ARGS@ splice. R7: the digest naming the exe-wrapper response file is taken over the text written '
+    'into it. R8: Interpreter._add_arguments does not store one list object under several languages while stored lists are modified in place. '
+    'Functions are analysed in a normal form (private helpers inlined, constant-tuple loops unrolled, conditional-expression assignments and '
+    'search loops desugared, enum-keyed constant tables folded per member); anchors are found by role. '
+    'R6: a newline in an argument forces the pickled wrapper, which receives the unmodified '
     'serialisation (an information note reports whether environment values placed on the command line by the `env` shortcut are newline-tested; not an obligation). NOT decided: what shlex.quote/cmd_quote produce for a given string,  the behaviour of ninja, /bin/sh, shlex.quote, cmd.exe and compiler response-file parsers.')
 ASSUMPTIONS = ['ninja treats exactly `$`, space, newline (and `:` on build lines) as special and `$x` as escape of x',
                'shlex.quote / CommandLineToArgvW quoting are inverse to the respective shell word splitting',
@@ -52,12 +58,21 @@ BUILD_SOURCES = ['infilenames', 'outfilenames', 'implicit_outfilenames', 'deps',
 NO_INLINE = {'ninja_quote', '_quoter', 'cmd_quote', 'gcc_rsp_quote', 'quote_func', 'quote_arg', 'strToCommandArg', 'rule_iter'}
 
 
+_NF_CACHE: T.Dict[T.Tuple[str, str, str], ast.AST] = {}
+
+
 def _nfunc(mod: Module, qn: str) -> ast.AST:
     """The function with calls to private helpers of its class/module expanded in place and boolean single-definition
     locals substituted into the tests that read them (both are syntactic normalisations of a copy)."""
+    key = (mod.rel, mod.digest, qn)
+    if key in _NF_CACHE:
+        return _NF_CACHE[key]
+    if len(_NF_CACHE) > 64:
+        _NF_CACHE.clear()
     cls = qn.split('.')[0] if '.' in qn and mod.has_cls(qn.split('.')[0]) else None
-    f = unroll_const_loops(inline_helpers(mod, mod.func(qn), cls, NO_INLINE))
-    return inline_test_locals(search_loop_to_any(index_loop_to_direct(ifexp_assign_to_if(f))))
+    f = unroll_const_loops(inline_helpers(mod, mod.func(qn), cls, NO_INLINE), True)      # inline_helpers works on a copy; the rest edits that copy
+    _NF_CACHE[key] = inline_test_locals(search_loop_to_any(index_loop_to_direct(ifexp_assign_to_if(f, True), True), True), True)
+    return _NF_CACHE[key]
 
 
 class _Roles:
@@ -331,7 +346,7 @@ def r1a(ctx: RuleCtx) -> None:
     fn = _nfunc(mod, qn)
     fl = OFlow(fn, cut={'ninja_quote'}, opaque=True)
     sinks = _sinks(fn, fl)
-    ctx.floor(f'{qn}: outfile.write sinks', len(sinks), 3)
+    ctx.floor(f'{qn}: outfile.write sinks', len(sinks), 1)
     opaque_flows: T.List[str] = []
     for c in sinks:
         oo = fl.origins(c.args[0])
@@ -406,7 +421,7 @@ def r1a(ctx: RuleCtx) -> None:
                             f'{apps[0][5:]} ({got}); the reference is {want}'
                             + (' (`&&` must reach the shell unquoted; values of raw variables are read by ninja itself)' if want == 'ninja-only' else
                                ' (the value is split by the shell / response-file parser)'), r.path.events[-1].node)
-    ctx.floor(f'{qn}: rows of the value loop', n_rows, 3)
+    ctx.floor(f'{qn}: rows of the value loop', n_rows, 1)
     for q in sorted(qf_names):
         vals = fl.defs.get(q, [])
         if not vals:
@@ -439,7 +454,7 @@ def r1a(ctx: RuleCtx) -> None:
                 badc = [x for x in consts if not (isinstance(x, str) and re.fullmatch(r'[A-Za-z_][A-Za-z0-9_]*', x))]
                 if badc:
                     ctx.violation(mod, q, c, f'add_item is called with the variable name {badc[0]!r}, which is not an identifier: names are written unquoted by {qn}', c)
-    ctx.floor('add_item call sites with a literal identifier as variable name', n, 60)
+    ctx.floor('add_item call sites with a literal identifier as variable name', n, 10)
     if opaque_flows:
         raise Undecided(f'{qn}: {sorted(set(opaque_flows))} reach outfile.write through a callee the analysis cannot see into')
     if unknown_names:
@@ -556,7 +571,7 @@ def r1b(ctx: RuleCtx) -> None:
     fn = _nfunc(mod, qn)
     fl = OFlow(fn, cut)
     sinks = _sinks(fn, fl)
-    ctx.floor(f'{qn}: outfile.write sinks', len(sinks), 10)
+    ctx.floor(f'{qn}: outfile.write sinks', len(sinks), 2)
     init = _nfunc(mod, 'NinjaRule.__init__')
     fi = OFlow(init, cut)
     srcs = {'attr:self.command', 'attr:self.args'}
@@ -596,7 +611,7 @@ def r1b(ctx: RuleCtx) -> None:
                     good = isinstance(second, ast.Name) and second.id != default_qf
                     ctx.require(good, f'{qn}: `rspfile_content` uses the rsp quoter: {short(sc.call, 60)}', mod, qn, f'rspfile_content <- {norm(sc.call)}',
                                 'the response file content is quoted with the shell quoter instead of the rsp-style quote function', sc.call)
-    ctx.floor(f'{qn}: command lines written', seen_vars.get('command', 0), 3)
+    ctx.floor(f'{qn}: command lines written', seen_vars.get('command', 0), 1)
     ctx.floor(f'{qn}: rspfile_content lines written', seen_vars.get('rspfile_content', 0), 1)
     # command/args hold NinjaCommandArg produced by the argument classifier (found by role)
     roles = _roles(ctx, mod)
@@ -666,7 +681,7 @@ def r1c(ctx: RuleCtx) -> None:
         ok, q, why = _none_site_ok(ctx, mod, node, par, cfgs)
         n += 1
         ctx.require(ok, f'{q}: {why}', mod, q, par, f'unquoted rule argument: {why}; only `$variable` references may bypass shell and ninja quoting', par)
-    ctx.floor('Quoting.none construction sites', n, 12)
+    ctx.floor('Quoting.none construction sites', n, 2)
     # built-in positive example: a target-derived value marked Quoting.none must be recognised as a bad site
     demo = Module(ctx.repo, '<demo>', "def f(compiler, target):\n    return NinjaCommandArg.list(compiler.get_output_args(target.name), Quoting.none)\n")
     dcall = [c for c in ast.walk(demo.tree) if isinstance(c, ast.Call) and call_name(c) == 'NinjaCommandArg.list'][0]
@@ -1570,7 +1585,7 @@ def r5a(ctx: RuleCtx) -> None:
                     f'str element: {key}',
                     f'a string element of the command is rewritten by `{key}`; only .replace of an @TEMPLATE@ literal is an established rewrite and the element must be appended once',
                     r.path.events[-1].node if r.path.events else loop)
-    ctx.floor(f'{qn}: paths for string elements', n, 4)
+    ctx.floor(f'{qn}: paths for string elements', n, 1)
     # every in-place template is substituted on every path where the element may contain it
     for r in tab.rows:
         is_str = [v for a, v in r.conds.items() if a.kind == 'isinstance' and a.args == (it, ('str',))]
@@ -1701,7 +1716,7 @@ def r5b(ctx: RuleCtx) -> None:
                         raise Undecided(f'{rel}:{q}: cannot see what escape_extra_args({short(a)}) is applied to')
                     ctx.violation(m2, q, c, f'escape_extra_args is applied to {short(a)}, which also holds the results of {others[:4]}: only the per-target <lang>_args '
                                   '(target.get_extra_args) are escaped; any other argument would have its backslashes doubled', c)
-    ctx.floor('escape_extra_args call sites', n, 2)
+    ctx.floor('escape_extra_args call sites', n, 1)
 
 
 
@@ -1927,7 +1942,7 @@ def r6(ctx: RuleCtx) -> None:
     ctx.require(not rebinds and not clears, f'{qn}: `{force}`/`{reasons}` are not reset after the newline test', mod, qn, f'reset of {force}/{reasons}: {[norm(n.ast) for n in rebinds + clears]}',
                 f'{[short(n.ast) for n in rebinds + clears]} resets the flag or the reasons after the newline test')
     direct, pickled = R.returns()
-    ctx.floor(f'{qn}: returns that place the arguments on the command line', len(direct), 3)
+    ctx.floor(f'{qn}: returns that place the arguments on the command line', len(direct), 1)
     for r in direct:
         why = R.excluded(r, nl, f, force, reasons, msgs, A)
         if why is None:
